@@ -184,6 +184,9 @@ pub enum RdBackend {
     /// std::io::Cursor<Vec<u8>> under the adapter; cap = Some(n): through std BufReader
     StdCursor { cap: Option<usize> },
     Faulty { fail_at: usize, kind: ErrK },
+    /// scale scenarios: the first `head_words` words of the image, then `zero_words`
+    /// all-zero words (no memory), then the rest of the image; strict
+    Sparse { head_words: usize, zero_words: u64 },
 }
 impl RdBackend {
     pub fn name(&self) -> &'static str {
@@ -197,6 +200,7 @@ impl RdBackend {
             RdBackend::StdCursor { cap: None } => "cursor",
             RdBackend::StdCursor { cap: Some(_) } => "bufcursor",
             RdBackend::Faulty { .. } => "faulty",
+            RdBackend::Sparse { .. } => "sparse",
         }
     }
     pub fn zero_extended(&self) -> bool {
@@ -229,6 +233,8 @@ pub enum WrBackend {
     Adapter { plan: FaultPlan },
     BufAdapter { cap: usize, plan: FaultPlan },
     Rec { refuse_at: Option<u64> },
+    /// scale scenarios: recording stub that keeps only the non-zero words and a count
+    SparseRec,
 }
 impl WrBackend {
     pub fn name(&self) -> &'static str {
@@ -238,6 +244,7 @@ impl WrBackend {
             WrBackend::Adapter { .. } => "adapter",
             WrBackend::BufAdapter { .. } => "bufadapter",
             WrBackend::Rec { .. } => "rec",
+            WrBackend::SparseRec => "sparserec",
         }
     }
 }
@@ -310,6 +317,15 @@ fn mk_rd_backend<W: SimWord>(spec: &RdBackend, bytes: &[u8]) -> (AnyWordRead<W>,
         RdBackend::StdCursor { cap: None } => RdInner::Cursor(WordAdapter::new(Cursor::new(words_to_bytes(&words)))),
         RdBackend::StdCursor { cap: Some(c) } => {
             RdInner::BufCursor(WordAdapter::new(BufReader::with_capacity((*c).max(1), Cursor::new(words_to_bytes(&words)))))
+        }
+        RdBackend::Sparse { head_words, zero_words } => {
+            let h = (*head_words).min(words.len());
+            RdInner::Sparse(SparseWordRead {
+                head: Rc::new(words[..h].to_vec()),
+                zeros: *zero_words,
+                tail: Rc::new(words[h..].to_vec()),
+                pos: 0,
+            })
         }
         RdBackend::Faulty { fail_at, kind } => {
             let fired = Rc::new(RefCell::new(0));
@@ -613,8 +629,12 @@ fn mk_wr_backend<W: SimWord>(spec: &WrBackend, word: Wd) -> (AnyWordWrite<W>, Wr
             WrInner::BufAdapter(WordAdapter::new(BufWriter::with_capacity((*cap).max(1), d)))
         }
         WrBackend::Rec { refuse_at } => WrInner::Rec { refuse_at: *refuse_at },
+        WrBackend::SparseRec => WrInner::Rec { refuse_at: None },
     };
     let b = AnyWordWrite::new(inner);
+    if matches!(spec, WrBackend::SparseRec) {
+        b.log.borrow_mut().sparse = true;
+    }
     let h = WrHandles {
         log: b.log.clone(),
         disk,
